@@ -587,3 +587,12 @@ def borrowed_local(fn, op, depth=8):
                 continue
         return None
     return None
+
+
+def escapes(fn, start_bb, must_blocks, avoid=()):
+    """a path from start_bb to a return that passes none of must_blocks (flag-sensitive, Err sinks/`avoid` excluded); None if every
+    returning path passes one of them"""
+    must = set(must_blocks)
+    if start_bb in must:
+        return None
+    return flag_reach(fn, start_bb, return_blocks(fn), avoid=must | set(avoid))
